@@ -107,7 +107,7 @@ PROPS = {
         props_v="Props/C17.v",
         corr_v=["Corr/CheckC17.v"],
         n_quick=120, n_thorough=3000,
-        explanation="PARTIAL (a theorem cannot exhibit the Go scheduler or memory model). Theorems: the access table extracted from the Go sources on every run (which package-level variable each function of reader/writer/formats reads, writes, calls atomically or publishes, and under which mutex) satisfies the lock discipline; for any table that passes, any two thread accesses to the same variable with a write are both atomic sync operations or hold a common mutex one of them exclusively, and no package-level object is published into instances; sequential registry semantics (lookup after register/unregister, independence across formats). Tie: regenerated table (syntactic, fail-closed extractor); sequential registry histories vs the registry model; oracle: race-detector build stressing every entry-point mix from 16 goroutines with per-call comparison against sequential results.",
+        explanation="Proof obligations over tables regenerated from the Go AST on every run: the lock discipline of the package-level registries, and no method of a shared driver value (registered unserializers and serializers, the sniffer) writes its receiver. PARTIAL (a theorem cannot exhibit the Go scheduler or memory model). Theorems: the access table extracted from the Go sources on every run (which package-level variable each function of reader/writer/formats reads, writes, calls atomically or publishes, and under which mutex) satisfies the lock discipline; for any table that passes, any two thread accesses to the same variable with a write are both atomic sync operations or hold a common mutex one of them exclusively, and no package-level object is published into instances; sequential registry semantics (lookup after register/unregister, independence across formats). Tie: regenerated table (syntactic, fail-closed extractor); sequential registry histories vs the registry model; oracle: race-detector build stressing every entry-point mix from 16 goroutines with per-call comparison against sequential results.",
         assumptions=["the lockset extractor is syntactic (trusted to see every access to the listed package-level variables; aborts on constructs it does not understand)", "mutual exclusion of sync.RWMutex, atomicity of sync.Map/sync.Once methods and the Go memory model are trusted, not modelled", "data races in code reached through instances (not package-level state) are visible only to the race-detector stress", "lazy initialisation: sync.Once is trusted; that initialisation completes before the first concurrent use returns is checked by fresh-process first-use runs, not by the lock table"],
     ),
     "C02": dict(
